@@ -5,8 +5,12 @@ event log of every seed must agree everywhere. Exit 2 on any disagreement."""
 import json, os, subprocess, sys, tempfile
 
 binary, tier = sys.argv[1], (sys.argv[2] if len(sys.argv) > 2 else "quick")
-props = os.environ.get("VERIF_SELFTEST_PROPS", "C04").split(",")
-seeds = int(os.environ.get("VERIF_SELFTEST_SEEDS", "12" if tier == "quick" else "40"))
+DEFAULT = "C04,C03,C06,C12,C17" if tier == "quick" else "C01,C02,C03,C04,C05,C06,C07,C08,C09,C12,C13,C14,C15,C16,C17,C18"
+props = os.environ.get("VERIF_SELFTEST_PROPS", DEFAULT).split(",")
+seeds = int(os.environ.get("VERIF_SELFTEST_SEEDS", "8" if tier == "quick" else "40"))
+# C13's seeded double-fault mode depends on Go map iteration order inside OnExecute (which of two planned faults is
+# met first); its single-fault matrix does not, and is what the self-test runs.
+PARAMS = {"C13": "mode=matrix,mw=0,mW=1", "C16": "mode=matrix,mw=0,mW=1"}
 procs_list = [1, 4, 16] if tier != "quick" else [1, 16]
 base = "/dev/shm" if os.path.isdir("/dev/shm") else tempfile.gettempdir()
 work = tempfile.mkdtemp(prefix="verif-selftest-", dir=os.environ.get("VERIF_SCRATCH", base))
@@ -18,7 +22,7 @@ try:
             for rep in range(2 if tier != "quick" else 1):
                 out = os.path.join(work, "%s-%d-%d.json" % (prop, gp, rep))
                 env = dict(os.environ, VERIF_PROP=prop, VERIF_TIER="quick", VERIF_MODE="selftest", VERIF_SEED_BASE="7700000",
-                           VERIF_RUNS=str(seeds), VERIF_OUT=out, GOMAXPROCS=str(gp))
+                           VERIF_RUNS=str(seeds), VERIF_OUT=out, GOMAXPROCS=str(gp), VERIF_PARAMS=PARAMS.get(prop, ""))
                 p = subprocess.Popen([binary, "-test.run", "^TestWorker$", "-test.timeout", "1h"], env=env,
                                      stdout=subprocess.PIPE, stderr=subprocess.STDOUT, text=True)
                 jobs.append((gp, rep, out, p))
